@@ -146,5 +146,5 @@ pub fn case(tape: &[u8], ctx: &Ctx) -> Outcome {
 }
 
 pub fn property() -> Property {
-    Property { id: "C01", rule: RULE, phases: vec![Phase::Prop { name: "deflate sessions -> inflate", f: case, quick: 150_000, thorough: 3_000_000, max_tape: 320 }] }
+    Property { id: "C01", rule: RULE, phases: vec![Phase::Prop { name: "deflate sessions -> inflate", f: case, quick: 250_000, thorough: 4_000_000, max_tape: 320 }] }
 }
